@@ -175,6 +175,11 @@ func (o *Overlay) TransmitMsg(onetMsg *ProtocolMsg, io MessageProxy) error {
 		log.Lvlf4("Creating TreeNodeInstance at %s %x", o.server.ServerIdentity, onetMsg.To.ID())
 		tn, err := o.TreeNodeFromTree(tree, onetMsg.To.TreeNodeID)
 		if err != nil {
+			// the lookup above cancelled a pending removal of the tree: schedule
+			// it again if no instance uses the tree, or it would stay for ever
+			o.instancesLock.Lock()
+			o.cleanTreeStorage(onetMsg.To)
+			o.instancesLock.Unlock()
 			return xerrors.New("No TreeNode defined in this tree here")
 		}
 		tni := o.newTreeNodeInstanceFromToken(tn, onetMsg.To, io)
